@@ -389,5 +389,105 @@ theorem two_rounds_quiescent (s : State) : Quiescent (round (round s)) := by
   obtain ⟨p1, p2, p3⟩ := h1' hcon
   exact ⟨p1, p2, hup, p3⟩
 
+/-! ## a round is a schedule of the model's own actions; "once drained" is reached, not assumed -/
+
+/-- an action of the replication machinery alone: no mark, no despawn, nobody leaving -/
+def machinery : Act → Bool
+  | .markH | .markC _ | .despawnH | .despawnC _ | .leave _ => false
+  | _ => true
+
+def QuietE (s t : State) : Prop := ∃ as : List Act, (∀ a ∈ as, machinery a = true) ∧ t = run s as
+
+theorem quietE_refl (s : State) : QuietE s s := ⟨[], fun _ h => by simp at h, rfl⟩
+
+theorem quietE_trans {a b c : State} (h1 : QuietE a b) (h2 : QuietE b c) : QuietE a c := by
+  obtain ⟨l1, w1, e1⟩ := h1
+  obtain ⟨l2, w2, e2⟩ := h2
+  refine ⟨l1 ++ l2, ?_, ?_⟩
+  · intro x hx
+    rcases List.mem_append.mp hx with h | h
+    · exact w1 x h
+    · exact w2 x h
+  · rw [e2, e1]; simp [run, List.foldl_append]
+
+theorem quietE_step (s : State) (a : Act) (h : machinery a = true) : QuietE s (step s a) :=
+  ⟨[a], fun x hx => by simp only [List.mem_singleton] at hx; rw [hx]; exact h, rfl⟩
+
+theorem quietE_foldl {β : Type} (g : State → β → State) (hg : ∀ t b, QuietE t (g t b)) (l : List β) (s : State) :
+    QuietE s (l.foldl g s) := by
+  induction l generalizing s with
+  | nil => exact quietE_refl s
+  | cons b l ih => exact quietE_trans (hg s b) (ih _)
+
+theorem quietE_round (s : State) : QuietE s (round s) := by
+  unfold round
+  refine quietE_trans ?_ (quietE_foldl _ (fun t i => ?_) _ _)
+  · unfold hostPhase
+    dsimp only
+    exact quietE_trans (quietE_trans (quietE_step _ _ rfl) (quietE_step _ _ rfl))
+      (quietE_foldl _ (fun t i => quietE_step t _ rfl) _ _)
+  · unfold clientPhase
+    dsimp only
+    exact quietE_trans (quietE_trans (quietE_step _ _ rfl) (quietE_step _ _ rfl)) (quietE_step _ _ rfl)
+
+theorem quiescence_reached (s : State) : ∃ as : List Act, (∀ a ∈ as, machinery a = true) ∧ Quiescent (run s as) := by
+  obtain ⟨as, hw, he⟩ := quietE_trans (quietE_round s) (quietE_round _)
+  exact ⟨as, hw, he ▸ two_rounds_quiescent s⟩
+
+theorem spawnOnly_of_machinery (a : Act) (h : machinery a = true) : SpawnOnly a := by
+  cases a <;> simp_all [SpawnOnly, machinery]
+
+theorem spawnOnlyW_of_machinery (w : Nat) (a : Act) (h : machinery a = true) : SpawnOnlyW w a := by
+  cases a <;> simp_all [SpawnOnlyW, machinery]
+
+theorem noMark_of_machinery (a : Act) (h : machinery a = true) : NoMark a := by
+  cases a <;> simp_all [NoMark, machinery]
+
+/-- **C01, entity marked on the host, without assuming the drain**: after any interleaving of a spawn epoch there is a
+continuation of the replication machinery alone (two fair rounds) after which the host and every connected client hold
+exactly one replica -/
+theorem host_origin_total (s : State) (as : List Act) (h0 : HostMarked s) (ha : ∀ a ∈ as, SpawnOnly a) :
+    ∃ more : List Act, (∀ a ∈ more, machinery a = true) ∧
+      (run (run s as) more).host.count = 1 ∧ ∀ c ∈ (run (run s as) more).clients, c.connected = true → c.p.count = 1 := by
+  obtain ⟨more, hw, hq⟩ := quiescence_reached (run s as)
+  refine ⟨more, hw, ?_⟩
+  have e : run (run s as) more = run s (as ++ more) := by simp [run, List.foldl_append]
+  rw [e] at hq ⊢
+  exact (host_origin_converges s (as ++ more) h0 (fun a h => by
+    rcases List.mem_append.mp h with h | h
+    · exact ha a h
+    · exact spawnOnly_of_machinery a (hw a h))).2.2 hq
+
+/-- **C01, entity marked on client `w`, without assuming the drain** -/
+theorem client_origin_total (w : Nat) (s : State) (as : List Act) (h0 : ClientMarked w s)
+    (ha : ∀ a ∈ as, SpawnOnlyW w a) (hw : ∃ c ∈ s.clients, c.id = w) :
+    ∃ more : List Act, (∀ a ∈ more, machinery a = true) ∧
+      (run (run s as) more).host.count = 1 ∧ ∀ c ∈ (run (run s as) more).clients, c.connected = true → c.p.count = 1 := by
+  obtain ⟨more, hm, hq⟩ := quiescence_reached (run s as)
+  refine ⟨more, hm, ?_⟩
+  have e : run (run s as) more = run s (as ++ more) := by simp [run, List.foldl_append]
+  rw [e] at hq ⊢
+  exact (client_origin_converges w s (as ++ more) h0 (fun a h => by
+    rcases List.mem_append.mp h with h | h
+    · exact ha a h
+    · exact spawnOnlyW_of_machinery w a (hm a h))).2.2 hw hq
+
+/-- **C01, despawns, without assuming the drain**: after any despawn history there is a continuation of the machinery alone
+after which all connected peers agree (everybody lost the entity as soon as one of them did) -/
+theorem despawns_total (s : State) (as : List Act) (h0 : Live s) (ha : ∀ a ∈ as, NoMark a) :
+    ∃ more : List Act, (∀ a ∈ more, machinery a = true) ∧
+      (((run (run s as) more).host.count = 0 → ∀ c ∈ (run (run s as) more).clients, c.connected = true → c.p.count = 0) ∧
+       (∀ c ∈ (run (run s as) more).clients, c.connected = true → c.p.count = 0 →
+          (run (run s as) more).host.count = 0 ∧ ∀ c' ∈ (run (run s as) more).clients, c'.connected = true → c'.p.count = 0)) := by
+  obtain ⟨more, hm, hq⟩ := quiescence_reached (run s as)
+  refine ⟨more, hm, ?_⟩
+  have e : run (run s as) more = run s (as ++ more) := by simp [run, List.foldl_append]
+  rw [e] at hq ⊢
+  have := del_agreement _ (delinv_run s (as ++ more) (live_delinv s h0) (fun a h => by
+    rcases List.mem_append.mp h with h | h
+    · exact ha a h
+    · exact noMark_of_machinery a (hm a h))) hq
+  exact ⟨this.1, this.2.1⟩
+
 end Ent
 end BevySync
